@@ -5,6 +5,7 @@
 -/
 import OnsagerProofs.C17Sound
 import OnsagerProofs.C16Tie
+import Mathlib.Data.ZMod.Defs
 
 namespace Onsager.C16
 open Generated.C16
@@ -26,6 +27,13 @@ theorem tab3_sem17 : tab3.Sem17 :=
 
 theorem tab2_sem17 : tab2.Sem17 :=
   sem17_of_checks tab2 tab2_sizes tab2_graded tab2_dmult tab2_pcoef_formula tab2_pcoef_powers
+
+/-- the live index tables satisfy the product-rule facts over every commutative ring (used by `inverse_through_order`) -/
+theorem tab3_semMul {S : Type} [CommRing S] (f : ℚ → S) : (tab3.mapK f).SemMul :=
+  semMul_mapK_of_checks tab3 f tab3_sizes tab3_graded tab3_dmult tab3_pcoef_powers
+
+theorem tab2_semMul {S : Type} [CommRing S] (f : ℚ → S) : (tab2.mapK f).SemMul :=
+  semMul_mapK_of_checks tab2 f tab2_sizes tab2_graded tab2_dmult tab2_pcoef_powers
 
 theorem tab3_dim : tab3.dim = 3 := by decide +kernel
 theorem tab2_dim : tab2.dim = 2 := by decide +kernel
@@ -62,5 +70,21 @@ example : ParityOK tab3 ([(2, 0, [(1 : ℚ)])] : Coeffs ℚ) := by
   subst hp0
   have : tab3.deg 0 = 0 := by decide +kernel
   simp [this] at hodd
+
+/-- **inverse through the requested order on the live 3-D index tables**, over every commutative ring `S` with a
+    nilpotent `t` (`t^(B+1) = 0`, `B = Nmax + n_lead`): see `inverse_through_order`. -/
+theorem inverse_tab3 {S M : Type} [CommRing S] [Ring M] [Algebra S M] (f : ℚ → S) (u : List S) (t : S)
+    (minv : M → M) (a : Coeffs M) (Nmax : Int) (lead : Entry M) (rest : Coeffs M) (hsort : sortC a = lead :: rest)
+    (hl0 : lead.2.1 = 0) (hlen : lead.2.2.length = 1) (hinv : minv (lead.2.2.getD 0 0) * lead.2.2.getD 0 0 = 1)
+    (δ : Nat) (hδ : 1 ≤ δ) (L : Nat) (hrest : Good (tab3.mapK f) (lead.1 + δ) L rest)
+    (hsecond : ∀ second ∈ rest.head?, second.1 = lead.1 + δ)
+    (B : Nat) (hB : Nmax + lead.1 = (B : Int)) (ht : t ^ (B + 1) = 0) (hL : (B / δ + 1) * L ≤ (tab3.mapK f).lmax)
+    (c : Coeffs M) (hc : inversecoeff (tab3.mapK f) minv a Nmax = .ok c) :
+    eval (tab3.mapK f) u (fun n => rho t (n + lead.1)) c * eval (tab3.mapK f) u (fun n => rho t (n - lead.1)) a = 1 :=
+  inverse_through_order (tab3.mapK f) (tab3_semMul f) u t minv a Nmax lead rest hsort hl0 hlen hinv δ hδ L hrest hsecond
+    B hB ht hL c hc
+
+/-- non-vacuity of the nilpotent radial variable: in `ℤ/4`, `t = 2` has `t² = 0` (order `B = 1`) but `t ≠ 0` -/
+example : ((2 : ZMod 4) ^ (1 + 1) = 0) ∧ (2 : ZMod 4) ≠ 0 := by decide
 
 end Onsager.C16
